@@ -68,8 +68,18 @@ def param_abs(p: Any, orig32: torch.Tensor, orig_lr: Any) -> Dict[str, Any]:
         g = scaled_parameters([p], lr_scale_func_adam, lr=1.0)
         acc = True
         lrsame = abs(float(g[0]["lr"]) - orig_lr) <= 1e-12 * abs(orig_lr)
+        # the same through the optimizer classes with a TENSOR learning rate (a float32 cell, whatever dtype the parameter's
+        # history left it in): a value that float16 cannot hold (0.3), and a tiny one that float16 flushes to zero (2e-8)
+        from unit_scaling.optim import AdamW
+
+        for v in (0.3, 2e-8):
+            t = torch.tensor(v, dtype=torch.float32)
+            got = float(AdamW([p], lr=t, weight_decay=0.01).param_groups[0]["lr"])
+            lrsame = lrsame and abs(got - float(t) * orig_lr) <= 1e-6 * float(t) * abs(orig_lr)
     except ValueError:
         pass
+    except Exception:       # e.g. ZeroDivisionError when the learning rate was flushed to zero: the optimizer does not accept it
+        acc = False
     return {
         "tags": tags,
         "typ": getattr(p, "mup_type", None) if tags else "none",
